@@ -611,6 +611,14 @@ loss("lcc_loss", "kernel-tuple", lambda b: (L.lcc_loss, (b.img(2, 1), b.img(2, 1
 _pairwise("wlcc_loss", L.wlcc_loss, {"kernel_size": 3})
 loss("wlcc_loss", "source-target-mask", lambda b: (L.wlcc_loss, (b.img(2, 1), b.img(2, 1)), {"kernel_size": 3, "source_mask": b.mask(2, 1), "target_mask": b.img(2, 1)}))
 loss("wlcc_loss", "all-masks", lambda b: (L.wlcc_loss, (b.img(2, 1), b.img(2, 1)), {"kernel_size": 3, "mask": b.mask(2, 1), "source_mask": b.img(2, 1), "target_mask": b.img(2, 1)}))
+# every dtype pairing of the two per-image masks without a joint mask (a mask that already has the compute dtype is NOT copied
+# by `.float()`, so an in-place combination of the two would write into the caller's tensor; seeded change C15-10)
+for _sm in ("float32", "bool", "float64", "uint8"):
+    for _tm in ("float32", "bool", "float64"):
+        loss("wlcc_loss", f"masks-{_sm}-{_tm}", lambda b, _sm=_sm, _tm=_tm: (
+            L.wlcc_loss, (b.img(2, 1), b.img(2, 1)),
+            {"kernel_size": 3, "source_mask": b.mask(2, 1, dtype=getattr(torch, _sm)), "target_mask": b.mask(2, 1, dtype=getattr(torch, _tm))}))
+loss("wlcc_loss", "target-mask-only", lambda b: (L.wlcc_loss, (b.img(2, 1), b.img(2, 1)), {"kernel_size": 3, "target_mask": b.img(2, 1)}))
 loss("wlcc_loss", "source-mask-only", lambda b: (L.wlcc_loss, (b.img(2, 1), b.img(2, 1)), {"kernel_size": 3, "source_mask": b.img(2, 1)}))
 _pairwise("mi_loss", L.mi_loss, {"num_bins": 8}, multi=False)
 loss("mi_loss", "vmin-vmax", lambda b: (L.mi_loss, (b.img(2, 1), b.img(2, 1)), {"num_bins": 8, "vmin": 0.0, "vmax": 1.0}))
